@@ -85,7 +85,8 @@ def run(ctx):
                                                      units_pool=['', 'Channel', 'RFI', 'a.u.', 'MEF', 'mef', 'au'] if not wide else ['RFI', 'a.u.', 'Channel', 'au'],
                                                      nfl=(3 if ncl >= 3 else None) if not wide else 12,      # 'wide': twelve reported fluorescence channels, plotted
                                                      force_float_first=hist and cid[1] % 4 != 3,   # 2^18-resolution channel on the histogram sheet
-                                                     zero_fraction_first=cid[1] % 3 == 1 or cid[1] % 6 == 3)            # a row whose gate keeps no event
+                                                     zero_fraction_first=cid[1] % 3 == 1 or cid[1] % 6 == 3,            # a row whose gate keeps no event
+                                                     id_style='plain' if cid[1] % 6 not in (0, 4) else 'free')       # identifiers with dots / blanks (one plotted workbook)
         # clustering channels: 1, 2 or 3 of the instrument's fluorescence channels
         for bid in btab.index:
             fl = [c.strip() for c in itab.at[btab.at[bid, 'Instrument ID'], 'Fluorescence Channels'].split(',')]
